@@ -211,6 +211,17 @@ def requests_of_find(fr, boxes):
     return out
 
 
+VARIANT = {"v": None}     # which find_irrelevant_type the tree implements ("asIs" / "repaired"), set by the check
+
+
+def effective_etype(etype, anyt):
+    """the type find_irrelevant_type works with after its preamble"""
+    t = irrelevant_target(etype, anyt)
+    if VARIANT["v"] == "repaired" and kind(t) == "b" and getattr(t, "primitive", False) and hasattr(t, "box_type"):
+        t = t.box_type()
+    return t
+
+
 def requests_of_irrelevant(fr):
     out = []
     fac = fr["factory"]
@@ -220,7 +231,10 @@ def requests_of_irrelevant(fr):
         tt = export.TypeTable()
         rq = {"op": "find.avail", "types": [tt.add(t) for t in fr["types"]],
               "relevant": [tt.add(t) for t in fr["sups"] + fr["subs"]],
-              "expect": [tt.add(t) for t in fr.get("available", [])]}
+              "expect": [tt.add(t) for t in fr.get("available", [])],
+              "any": tt.add(anyt), "etype": tt.add(effective_etype(fr["etype"], anyt))}
+        if VARIANT["v"] in ("asIs", "repaired"):
+            rq["variant"] = VARIANT["v"]
         rq["tt"] = tt.entries
         out.append((rq, True, {"what": "exact-avail", "frame": fr}))
     if "exception" not in fr:
@@ -234,6 +248,15 @@ def requests_of_irrelevant(fr):
 
 
 # ---- well-bounded instantiations ---------------------------------------------------------------------
+def query_ok(t):
+    """is the query inside the domain the property speaks about: a well-formed type (projections agree with
+    declaration-site variance, …) whose instantiations respect the declared bounds"""
+    try:
+        return (kind(t) == "w" or refsub.well_formed(t)) and well_bounded(t)
+    except Exception:
+        return False
+
+
 def well_bounded(t, depth=0):
     """every instantiation inside `t` keeps its arguments within the declared bounds of its
     constructor's parameters (judged by the independent reference decider)"""
@@ -303,6 +326,8 @@ def irrelevant_shape(etype, result, ans, anyt):
     kt, kr = kind(tgt), kind(result)
     if direction == "supertype" and result == anyt:
         return "supertype:top-type-returned"
+    if direction == "supertype" and kt == "b" and getattr(tgt, "primitive", False) and kr == "b":
+        return "supertype:supertype-of-the-box-of-a-primitive"
     if kr == "p" and kt == "p" and result.t_constructor == tgt.t_constructor:
         return "%s:same-constructor" % direction
     if kr == "p" and direction == "subtype" and _nominally_below(result.t_constructor, _con_name(tgt)):
@@ -334,9 +359,15 @@ def subtype_shape(fr, r):
         walk(t)
         return found[0]
     feats = []
-    if has(e, "w") or has(r, "w"):
+    if kind(e) == "p":
+        ps = list(e.t_constructor.type_parameters)
+        if any(p.bound is not None and any(p.bound == q for q in ps) for p in ps):
+            feats.append("param-bounded-param")
+    if feats:
+        pass
+    elif has(e, "w") or has(r, "w"):
         feats.append("wildcard")
-    if has(e, "v") or has(r, "v"):
+    if "param-bounded-param" not in feats and (has(e, "v") or has(r, "v")):
         feats.append("typevar")
     return "%s/%s/%s%s" % ("sub" if fr["get_subtypes"] else "super", via,
                            "samecon" if same else "%s-for-%s" % (kind(r), kind(e)),
@@ -394,7 +425,7 @@ def eval_frames(run, frames, label, boxes_by_frame=None, origin=None):
             st["returned_types"] += n
             run.count({"request": rq, "answer": True}, nontrivial=n > 0)
             run.tally("refine_find", "ok" if ans["ok"] else "rejected")
-            if not well_bounded(fr["etype"]):
+            if not query_ok(fr["etype"]):
                 # the query is not a well-formed instantiation (an argument exceeds its declared bound):
                 # the property promises nothing; counted
                 run.tally("refine_find", "ill-bounded-query-skipped")
@@ -411,7 +442,7 @@ def eval_frames(run, frames, label, boxes_by_frame=None, origin=None):
             run.tally("refine_irrelevant", "ok" if ans["ok"] else "rejected")
             run.tally("irrelevant_answers", "None" if fr.get("result") is None else
                       ("early:" if ans["early"] else "") + kind(fr["result"]))
-            if not ans["ok"] and not well_bounded(fr["etype"]):
+            if not ans["ok"] and not query_ok(fr["etype"]):
                 run.tally("refine_irrelevant", "ill-bounded-query-skipped")
             elif not ans["ok"]:
                 st["rejected"] += 1
@@ -451,13 +482,13 @@ def report_find_rejection(run, rq, ans, fr, label, origin):
                        "accept as a %s" % (who, export.short(fr["etype"]), export.short(r),
                                            "subtype" if fr["get_subtypes"] else "supertype"),
                        "etype": export.short(fr["etype"]), "returned": export.short(r), "request": rq,
-                       "checker": ans, "origin": origin, "stream": label},
+                       "checker": ans, "origin": dict(origin or {}, **fr.get("where", {})), "stream": label},
                       signature=SIG_SUB + shape)
     if ans["self_demanded"] and ans["self"] != fr["include_self"]:
         run.violation({"kind": "failing-input", "what": "%s(%s, include_self=%s): query %s the result"
                        % (who, export.short(fr["etype"]), fr["include_self"],
                           "is in" if ans["self"] else "is missing from"),
-                       "request": rq, "checker": ans, "origin": origin, "stream": label},
+                       "request": rq, "checker": ans, "origin": dict(origin or {}, **fr.get("where", {})), "stream": label},
                       signature=SIG_SUB + ("self-included-unasked" if ans["self"] else "self-missing"))
 
 
@@ -469,7 +500,7 @@ def report_irrelevant_rejection(run, rq, ans, fr, label, origin):
                       "subtype" if ans.get("sub") else "supertype" if ans.get("sup") else "?"),
                    "etype": export.short(fr["etype"]), "returned": export.short(fr["result"]),
                    "types": [export.short(t) for t in fr["types"]][:40],
-                   "request": rq, "checker": ans, "origin": origin, "stream": label},
+                   "request": rq, "checker": ans, "origin": dict(origin or {}, **fr.get("where", {})), "stream": label},
                   signature=SIG_IRR + shape)
 
 
